@@ -55,6 +55,31 @@ def handle : Handler := fun j => do
     ("rows", Json.mkObj [("transactions", toJson db.transactions.length), ("moves", toJson db.moves.length), ("accounts", toJson db.accounts.length),
       ("transactions_metadata", toJson db.transactions_metadata.length), ("accounts_metadata", toJson db.accounts_metadata.length), ("logs", toJson db.logs.length)])]
 
+/-- a cell of a projected row, for the evaluation of captured read statements outside Lean (area `storesql-moves`): integers as decimal
+strings (amounts exceed 2^63), timestamps as numbers (µs), a `volumes` value as `[inputs, outputs]` -/
+def jVal : Sql.Val → Json
+  | .null => Json.null
+  | .bool b => Json.bool b
+  | .int i => Json.str (toString i)
+  | .text s => Json.str s
+  | .numtext n => Json.str (toString n)
+  | .ts t => toJson t
+  | .tstext w o => Json.mkObj [("wall", toJson w), ("off", toJson o)]
+  | .vol i o => Json.arr #[jVal i, jVal o]
+  | .json _ => Json.str "<json>"
+  | .jsontext _ => Json.str "<jsontext>"
+
+/-- area `storesql-moves`: the rows of `moves` after the GENERATED trigger chain has projected the history (same input lines as `storesql`) -/
+def handleMoves : Handler := fun j => do
+  let logs ← Driver.StoreD.parseLogs j
+  let lo := logs.zip (← offsetsOf j)
+  let db := projectO lo
+  pure <| Json.mkObj [("moves", Json.arr (db.moves.map (fun (r : Schema.MovesRow) => Json.mkObj [
+    ("seq", jVal r.seq), ("ledger", jVal r.ledger), ("account_address", jVal r.account_address), ("asset", jVal r.asset),
+    ("insertion_date", jVal r.insertion_date), ("effective_date", jVal r.effective_date),
+    ("post_commit_volumes", jVal r.post_commit_volumes), ("post_commit_effective_volumes", jVal r.post_commit_effective_volumes),
+    ("is_source", jVal r.is_source), ("amount", jVal r.amount)])).toArray)]
+
 structure Acc where
   histories : Nat := 0
   discrepant : Nat := 0
